@@ -786,6 +786,34 @@ func (c *Ctx) c14Cyclic(n int) (lines, impl []string) {
 // c14CyclicMixed: object graphs of slices and maps of every key kind (string, int, float64, bool) whose elements are
 // any, linked at random (self-loops, cycles through several kinds): rendering terminates and cuts every cycle. Only
 // termination is checked here (the announced case is the replay if the process dies of a stack overflow).
+// c14StructsThroughAny: a struct printed one level down (a field of the printed struct, an element of the printed
+// slice or map) that keeps other struct references in a container of any: the static type of the container says
+// nothing about its elements, so the nested struct is cut AT that container - acyclic chains print one level and
+// cyclic graphs terminate (a missed cut is unbounded recursion: announced first)
+func (c *Ctx) c14StructsThroughAny() {
+	const decl = "import \"fmt\"\ntype Node struct {\n\tName string\n\tKids []any\n}\ntype Doc struct {\n\tRoot *Node\n}\ntype Box struct {\n\tAttr map[string]any\n\tAny any\n}\ntype Wrap struct {\n\tB *Box\n}\n"
+	for _, q := range []struct{ src, want string }{
+		{"a := &Node{Name: \"a\"}\nb := &Node{Name: \"b\"}\nc := &Node{Name: \"c\"}\na.Kids = append(a.Kids, b)\nb.Kids = append(b.Kids, c)\nfmt.Println(&Doc{Root: a})\nfmt.Println([]*Node{a})\nprintln(a)\n",
+			"&{Root:&{Name:a Kids:[...]}}\n[&{Name:a Kids:[...]}]\n&{Name:a Kids:[...]}\n"},
+		{"root := &Node{Name: \"root\"}\nkid := &Node{Name: \"kid\"}\nroot.Kids = append(root.Kids, kid)\nkid.Kids = append(kid.Kids, root)\nfmt.Println(&Doc{Root: root})\nprintln([]*Node{kid})\ns := fmt.Sprint(&Doc{Root: kid})\nfmt.Print(s)\n",
+			"&{Root:&{Name:root Kids:[...]}}\n[&{Name:kid Kids:[...]}]\n&{Root:&{Name:kid Kids:[...]}}"},
+		{"b := &Box{Attr: map[string]any{}}\nb.Attr[\"self\"] = b\nb.Any = []any{b}\nw := &Wrap{B: b}\nprintln(w)\nprintln([]*Wrap{w})\nprintln(map[string]*Box{\"k\": b})\n",
+			"&{B:&{Attr:map[...] Any:[...]}}\n[&{...}]\nmap[k:&{Attr:map[...] Any:[...]}]\n"},
+		{"n := &Node{Name: \"n\", Kids: []any{1, \"x\"}}\nprintln(&Doc{Root: n})\nprintln([]*Node{n, nil})\n", "&{Root:&{Name:n Kids:[1 x]}}\n[&{Name:n Kids:[1 x]} nil]\n"},
+	} {
+		c.Pending(map[string]any{"structs_through_any": q.src})
+		out, err := runScript(decl + q.src)
+		c.PendingDone()
+		c.Rep.Oracle["structs-through-any"]++
+		if err != nil {
+			out += "ERROR " + err.Error()
+		}
+		if out != q.want {
+			c.Rep.Violate(Violation{Kind: "oracle", Cut: "structs-through-any", Input: decl + q.src, Impl: out, Oracle: q.want})
+		}
+	}
+}
+
 func (c *Ctx) c14CyclicMixed(n int) {
 	r := c.RNG
 	keyOf := func(kind, j int) goat.Value {
@@ -847,6 +875,7 @@ func runC14(c *Ctx) error {
 		return err
 	}
 	c.c14TypeBitsWitness()
+	c.c14StructsThroughAny()
 	if c.Thorough() {
 		c.c14CyclicMixed(20000)
 	} else {
